@@ -93,7 +93,7 @@ def run(ctx):
     rng = random.Random(ctx.seed)
     m = vlib.tlc("MC_IvpMethods", cfg="Gen.cfg", timeout=300)
     ctx.add_tlc(m, e1=True)
-    cases = gen(ctx, rng, 20 if ctx.tier == "quick" else 1500)
+    cases = gen(ctx, rng, 80 if ctx.tier == "quick" else 1500)
     judge(ctx, cases)
     ctx.rule = ("7 solvers x seeded generic non-linear non-autonomous systems (dimension 1-4) x random configurations, paths "
                 "capped at 300 points; every point judged; a run is non-trivial with >= 3 points; distinct by full input record")
